@@ -56,6 +56,9 @@ CLAIMED = {
          "Exploration: every sparsity pattern up to 3x3/4x3, every short triplet list and every small raw encoding is enumerated, plus tens of thousands of generated larger cases; each is compared with == against a dense model. Failing cases shrink to a replay file. Does not prove absence beyond the enumerated scope.",
          "Trusted: the dense model / is_canonical predicate in harness/src/props/c16.rs; exact arithmetic on small integers.",
          "DESIGN.md §4 C16"),
+ "C17": ("exhaustive small-scope enumeration of labelled graphs plus proptest-generated graph families; direct clique-tree validity oracle on the analysis run through the solver's constructor path; non-termination monitor",
+         "Exploration: every labelled graph on <= 6 (quick) / <= 7 (thorough) vertices x 3 merge strategies; 640k (quick) / 6.6M (thorough) generated graphs up to 200 / 400 vertices (banded, arrow, block chains, disconnected, random chordal, random sparse, cycles/grids, relabelled). Checked: permutation, consecutive supernode ranges, separator = clique ∩ parent, root last in post order, running intersection, coverage of every structural nonzero, block sizes, undecomposed only when dense/merged. A case that does not return within 120 s (600 s thorough; cases take microseconds to seconds) is reported as non-termination.",
+         "Trusted: the tree validator in harness/src/props/c17.rs; the guarded accessor view clarabel::verif::chordal::PatternView.", "DESIGN.md §4 C17"),
  "C19": ("proptest-generated save/load round trips (file content compared with the user's data and across generations) and fault injection on saved files (truncation, byte and token-level corruption)",
          "Exploration: 6k round trips and 40k faulted loads (quick; 200k / 2M thorough): every cone variant, empty matrices, extreme values, infinite and above-bound right-hand sides, every settings field randomised, optional override; the saved file must equal the user's data (exactly when equilibration is off), the loaded settings the saved/override ones, a second save the first, and both solvers the same verdict (bit-identical when equilibration is off). Corrupted files must yield Err or a solver that solves without panicking.",
          "Trusted: serde_json parsing of the saved text; temporary files are anonymous files under harness/target/cv-tmp; corrupted-but-accepted files are solved with sane settings (no termination is promised for e.g. a backtracking factor of 8).", "DESIGN.md §4 C19"),
